@@ -118,6 +118,17 @@ def run_e2e(args):
                                 got.append(sp.ident(e))
                                 if len(got) >= take: break
                             rec["runs"].append({"iface": "rust", "split": split, "shuffle": 0, "T": 2, "take": take, "got": got, "regen": k})
+                        # two iterables of the generator alive at once (tf.data calls the generator again while the previous iterable still
+                        # exists): b is started while a is in mid-epoch, a is then closed and collected, b keeps cycling through the split
+                        import gc
+                        a_it = iter(gen())
+                        for _ in range(max(1, N // 2)): next(a_it)
+                        b_it = iter(gen())
+                        gotb = [sp.ident(next(b_it)) for _ in range(2)]
+                        a_it.close(); del a_it; gc.collect()
+                        gotb += [sp.ident(next(b_it)) for _ in range(3 * N)]
+                        b_it.close()
+                        rec["runs"].append({"iface": "rust", "split": split, "shuffle": 0, "T": 2, "take": 3 * N + 2, "got": gotb, "regen": "overlap"})
                 except BaseException as e:  # noqa: BLE001
                     rec["runs"].append({"iface": "rust", "split": split, "shuffle": 0, "T": 2, "take": 0, "regen": -1, "error": f"{type(e).__name__}: {str(e)[:200]}"})
         # the same handle, after it has iterated: a further session adds shards, then repeating streams are started again — they
@@ -193,6 +204,13 @@ def run(ctx):
                 if got != exp:
                     ctx.report(dict(sig, kind="not-periodic"), f"{run_['iface']} unshuffled repeat: {got[:2*N+2]} is not {onepass} repeated",
                                {"case": r["case"], "run": run_, "onepass": onepass}); continue
+            if run_.get("regen") == "overlap":
+                # the second iterable may start in mid-epoch (it continues the native iterator): the stream is periodic with the split's
+                # length and every window of that length holds every example once
+                if any(got[i] != got[i + N] for i in range(len(got) - N)) or collections.Counter(got[:N]) != collections.Counter(onepass):
+                    ctx.report(dict(sig, kind="epoch", overlapping_iterables=True), f"RustGenerator with two iterables alive, the older one closed while the newer one is read: the newer stream {got[:2 * N + 2]} is not periodic over the split {onepass}",
+                               {"case": r["case"], "run": run_})
+                continue
             if run_["iface"] == "rust":
                 for e in range(len(got) // N):
                     ep = got[e * N:(e + 1) * N]
